@@ -6,6 +6,7 @@ import (
 	"strings"
 
 	"github.com/risor-io/risor"
+	"github.com/risor-io/risor/object"
 
 	"verif/internal/ev"
 )
@@ -35,6 +36,9 @@ func (c *phCar) Self() *phCar                { return c }
 func (c *phCar) SetSpareRPM(n int)           { c.Spare.RPM = n }
 func (c *phCar) DropEngine()                 { c.Engine = nil }
 
+// Note takes any value.
+func (c *phCar) Note(v interface{}) string { return fmt.Sprintf("%T", v) }
+
 // Lookup has a context parameter (supplied by the proxy, not by the script) in front of a pointer and a
 // string parameter.
 func (c *phCar) Lookup(ctx context.Context, limit *int, name string) string {
@@ -62,7 +66,7 @@ type phReplay struct {
 }
 
 var phOps = []string{"read-engine", "read-spare", "read-label", "write-engine-rpm", "write-engine", "write-spare-rpm", "write-spare",
-	"write-label", "go-refit", "other-proxy-write", "go-set-spare", "hold-engine", "read-held", "write-held", "go-drop-engine", "write-engine-nil", "read-tags", "append-tags", "read-lookup-nil", "read-lookup-value", "read-pick-nil", "read-pick-engine"}
+	"write-label", "go-refit", "other-proxy-write", "go-set-spare", "hold-engine", "read-held", "write-held", "go-drop-engine", "write-engine-nil", "read-tags", "append-tags", "read-lookup-nil", "read-lookup-value", "read-pick-nil", "read-pick-engine", "read-refused-nil-for-int", "read-refused-other-struct", "read-refused-function", "read-note-int"}
 
 func phScript(h []phStep) string {
 	var sb strings.Builder
@@ -110,6 +114,16 @@ func phScript(h []phStep) string {
 			sb.WriteString("obs.append(car.Pick(3, nil, \"b\"))\n")
 		case "read-pick-engine":
 			sb.WriteString("obs.append(car.Engine == nil ? \"skip\" : car.Pick(3, car.Engine, \"b\"))\n")
+		case "read-refused-nil-for-int":
+			sb.WriteString("obs.append(try(func() { car.SetSpareRPM(nil)\n return \"accepted\" }, func(e) { return \"refused\" }))\n")
+		case "read-refused-surplus-argument":
+			sb.WriteString("obs.append(try(func() { car.SetSpareRPM(7, 8)\n return \"accepted\" }, func(e) { return \"refused\" }))\n")
+		case "read-refused-other-struct":
+			sb.WriteString("obs.append(try(func() { car.Refit(car)\n return \"accepted\" }, func(e) { return \"refused\" }))\n")
+		case "read-refused-function":
+			sb.WriteString("obs.append(try(func() { car.Note(func() { return 1 })\n return \"accepted\" }, func(e) { return \"refused\" }))\n")
+		case "read-note-int":
+			sb.WriteString("obs.append(car.Note(5))\n")
 		case "read-tags":
 			sb.WriteString("obs.append(car.Tags)\n")
 		case "append-tags":
@@ -184,6 +198,10 @@ func phModel(h []phStep) (obs []string, car *phCar) {
 			} else {
 				obs = append(obs, fmt.Sprintf("%q", car.Pick(3, context.Background(), car.Engine, "b")))
 			}
+		case "read-refused-nil-for-int", "read-refused-surplus-argument", "read-refused-other-struct", "read-refused-function":
+			obs = append(obs, `"refused"`) // and the object is as it was
+		case "read-note-int":
+			obs = append(obs, `"int64"`)
 		case "read-tags":
 			q := make([]string, len(car.Tags))
 			for i, t := range car.Tags {
@@ -238,7 +256,40 @@ func phRun(h []phStep) (sig, what, observed, expected string) {
 	return "", "", res, exp
 }
 
+// phBad has a field of a kind that cannot cross the boundary.
+type phBad struct {
+	A int
+	C chan int
+	Z int
+}
+
+// A Go type that is refused is refused every time: the first failure must not leave a half-built type
+// behind that a second attempt is answered with.
+func refusedTypeStaysRefused(r *ev.Run) {
+	var outcomes []string
+	for i := 0; i < 3; i++ {
+		p, err := object.NewProxy(&phBad{A: 4, Z: 5})
+		switch {
+		case err != nil:
+			outcomes = append(outcomes, "error")
+		default:
+			_, okA := p.GetAttr("A")
+			_, okZ := p.GetAttr("Z")
+			outcomes = append(outcomes, fmt.Sprintf("proxy(A:%v Z:%v)", okA, okZ))
+		}
+	}
+	r.Eval(3)
+	r.Outcome("refused-type|" + strings.Join(outcomes, ","))
+	for i := 1; i < len(outcomes); i++ {
+		if outcomes[i] != outcomes[0] || outcomes[i] == "proxy(A:false Z:false)" {
+			r.Report("refused-type:later-attempt-differs", "object.NewProxy on a struct with a chan field, three times: "+strings.Join(outcomes, ", "), map[string]any{"kind": "refused-type"}, strings.Join(outcomes, ", "), "the same answer every time")
+			return
+		}
+	}
+}
+
 func proxyHistories(r *ev.Run) {
+	refusedTypeStaysRefused(r)
 	maxLen := 4
 	if r.Thorough() {
 		maxLen = 5
